@@ -153,8 +153,14 @@ impl<'a, F: Float> BallTreeInner<'a, F> {
         // The distance to a sphere is the distance to its edge, so the distance between a point
         // and a sphere will always be less than the distance between the point and anything inside
         // the sphere
-        let border_dist = dist_fn.distance(p, center.reborrow()) - *radius;
-        dist_fn.dist_to_rdist(border_dist.max(F::zero()))
+        // The distance to the centre, the radius and the conversion below are all rounded. Keep the
+        // bound a few ulps below its exact value: a bound that is rounded up can prune a sphere
+        // holding a point whose own reduced distance still compares as inside the query radius
+        // (e.g. a query radius equal to the distance between two of the points)
+        let ulps = F::epsilon() * F::cast(p.len() + 4);
+        let dist = dist_fn.distance(p, center.reborrow());
+        let border_dist = dist - *radius - (dist + *radius) * ulps;
+        dist_fn.dist_to_rdist(border_dist.max(F::zero())) * (F::one() - ulps)
     }
 }
 
